@@ -173,7 +173,7 @@ def run(rep: Report, tier: str, seed: int) -> None:
         s: TreeSpec = u["spec"]
         if len(s.letters) < 2:
             return dict(u["files"])
-        s2 = build(TreeSpec(s.tid, s.depth, s.mod_private, s.sub_private, tuple(reversed(s.letters)), s.r_root, s.r_sub, s.init_letter, s.sibling))
+        s2 = build(TreeSpec(s.tid, s.depth, s.mod_private, s.sub_private, tuple(reversed(s.letters)), s.r_root, s.r_sub, s.init_letter, s.sibling, s.shadow))
         return dict(s2.files) if s2 else dict(u["files"])
 
     def build_pkg(keys):
